@@ -483,6 +483,57 @@ func (r *Run) c09Stagnation(fn *ssa.Function, tm *Termer, loops []*Loop) {
 		r.Bad("adjustFitness.stagnation", p.Pos(pen.Pos()), "the condition of the stagnation penalty could not be brought to the form L >= 0: "+tm.Of(g.Cond).String())
 		return
 	}
+	// the decision uses the improvement record as it stood before this generation's own update: every read of
+	// AgeOfLastImprovement (directly or through lastImproved) precedes every store to it in this function
+	aoli := p.Field(PkgG, "Species", "AgeOfLastImprovement")
+	var reads []ssa.Instruction
+	Instrs(fn, func(_ *ssa.BasicBlock, _ int, in ssa.Instruction) {
+		switch x := in.(type) {
+		case *ssa.UnOp:
+			if fa, ok := x.X.(*ssa.FieldAddr); ok && x.Op == token.MUL && fieldOf(fa.X.Type(), fa.Field) == aoli {
+				reads = append(reads, in)
+			}
+		case *ssa.Call:
+			if x.Call.StaticCallee() == li {
+				reads = append(reads, in)
+			}
+		}
+	})
+	okOrder, whyO := true, ""
+	for _, st := range FieldStores(fn, aoli) {
+		for _, rd := range reads {
+			before := (rd.Block() == st.Block() && instrIndex(rd) < instrIndex(st)) || (rd.Block() != st.Block() && rd.Block().Dominates(st.Block()))
+			if !before {
+				// a read that can only execute after the store is a violation; reads on disjoint paths are not
+				if st.Block() == rd.Block() || st.Block().Dominates(rd.Block()) || reachesBlock(st.Block(), rd.Block()) {
+					okOrder = false
+					whyO = "AgeOfLastImprovement is stored at " + p.Pos(st.Pos()) + " and read afterwards at " + p.Pos(rd.Pos())
+				}
+			}
+		}
+	}
+	r.Check(okOrder && len(reads) > 0, "adjustFitness.stagnation.record", p.Pos(pen.Pos()), "the stagnation test reads the improvement record before this generation updates it",
+		whyO+": a species due for the penalty that sets a new record in the same generation escapes it, its quota is about 100 times too large")
 	r.Check(got.Equal(want), "adjustFitness.stagnation", p.Pos(pen.Pos()), "penalty exactly when Age - AgeOfLastImprovement + 1 - DropOffAge >= 0",
 		"the stagnation penalty applies when "+got.String()+" >= 0; the age adjustment is defined as Age - AgeOfLastImprovement + 1 - DropOffAge >= 0 ("+want.String()+"), so species are penalised a generation early or late and every quota derived from the adjusted fitness shifts")
+}
+
+// reachesBlock: is there a CFG path from a to b?
+func reachesBlock(a, b *ssa.BasicBlock) bool {
+	seen := map[*ssa.BasicBlock]bool{}
+	stack := []*ssa.BasicBlock{a}
+	for len(stack) > 0 {
+		x := stack[len(stack)-1]
+		stack = stack[:len(stack)-1]
+		for _, s := range x.Succs {
+			if s == b {
+				return true
+			}
+			if !seen[s] {
+				seen[s] = true
+				stack = append(stack, s)
+			}
+		}
+	}
+	return false
 }
